@@ -82,6 +82,40 @@ PROPS = {
         assumptions=ASSUME_WB + ["validity oracle is encoding/json.Valid on valid-UTF-8 texts; duplicate member names and a Go string/[]byte passed as 'value' are outside the domain"],
         stages=[dict(name="json", run="^TestC14_", quick=500, thorough=8000, shards_quick=4, shards_thorough=16)],
     ),
+    "C15": dict(
+        rule="case = JSON tree or block-YAML tree + 1-4 matchers (Any with default/custom placeholders of every JSON type, shorter and longer than the value; Type with the node's type; Custom returning a value) "
+             "on existing paths chosen by walking the tree (keys needing gjson escapes, array elements, nested; the same path twice; a parent after its child and a child after its parent), input as string/[]byte/Go value, "
+             "through MatchJSON / MatchStandaloneJSON / MatchYAML, SortKeys on and off. Oracle: a reported error (trivial, counted in classes) or the stored document equals the model set(tree, path, placeholder) applied left to right "
+             "as an ordered tree, Custom callbacks observe the model's current value, the caller's bytes are unchanged. non-trivial = >= 2 matchers, path depth >= 2, key needing escape, array element, or "
+             "placeholder not longer than the value with []byte input; distinct = distinct canonical JSON",
+        assumptions=ASSUME_WB + ["YAML output is parsed with goccy/go-yaml (ordered maps): the only YAML parser available offline", "a reported matcher error is a legal outcome"],
+        stages=[dict(name="matchers", run="^TestC15_", quick=800, thorough=10000, shards_quick=4, shards_thorough=16)],
+    ),
+    "C16": dict(
+        rule="case = document D (JSON tree or block YAML), 1-3 pairwise non-nested masked paths with matchers satisfiable on D (Any with plain/non-ASCII/quoted placeholders, Type[T] of the node's type, Custom returning a constant), "
+             "D' = D with every masked value replaced by another value satisfying the same matcher (other scalars, null, long strings, containers), D'' = D or D' with one uncovered scalar changed. "
+             "Oracle: stored(D) == stored(D') byte-for-byte, each replays read-only against the other's snapshot without writing, D'' reports exactly one error. "
+             "non-trivial = at least one masked path and D' differs textually from D; the D'' class is counted separately; distinct = distinct canonical JSON",
+        assumptions=ASSUME_WB + ["Type[any] is excluded (the placeholder records the dynamic type by design)", "cases on which a matcher reports an error on D or D' are counted as trivial"],
+        stages=[dict(name="masked", run="^TestC16_", quick=600, thorough=8000, shards_quick=4, shards_thorough=16)],
+    ),
+    "C17": dict(
+        rule="case = document + 1-5 matchers of which a generated subset fails (missing path, wrong type for Type, Custom returning an error) in any order, some missing paths under ErrOnMissingPath(false), "
+             "mode in {create allowed, update enabled with an existing different entry, Update(false), CI}, JSON / standalone JSON / YAML, 0-2 calls before and 1-3 calls after. "
+             "Oracle: one failure naming match.<Name>(\"<path>\") for every failing matcher, nothing written (mtime), later calls land in slots k+1...; with only tolerated missing paths the call proceeds per mode. "
+             "non-trivial = a failing and a satisfiable matcher together, or update-enabled mode with an existing entry, or a tolerated missing path; distinct = distinct canonical JSON",
+        assumptions=ASSUME_WB,
+        stages=[dict(name="failures", run="^TestC17_", quick=600, thorough=8000, shards_quick=4, shards_thorough=16)],
+    ),
+    "C18": dict(
+        rule="case = YAML text from a grammar (block mappings/sequences, flow collections incl. header-looking `[TestA - 2]`, comments, quoted/plain/block scalars with `---` and `/-/-/-/` lines, "
+             "multi-document streams with ---/..., %YAML directive, anchors/aliases, trailing blank lines, with/without final newline; LF only), split by the YAML library itself into valid and invalid; "
+             "constructed invalid inputs (unclosed flow/quote, tab indentation, undefined alias); Go values (nested maps with varied key order, tagged structs, multi-line strings); documents with a matcher (final newline). "
+             "Oracle: stored body == escape(input) byte-for-byte, read-only replay passes without writing; Go values store identical text in two processes; invalid = one `invalid yaml` failure, nothing written, ordinal consumed. "
+             "non-trivial = document with a separator line, comment, header-looking line, terminator in a block scalar, no final newline or trailing blank lines; or a Go value; or an invalid input; distinct = distinct canonical JSON",
+        assumptions=ASSUME_WB + ["validity is delegated to goccy/go-yaml (only used to split the domain); the verbatim clause is judged on bytes"],
+        stages=[dict(name="yaml", run="^TestC18_", quick=800, thorough=10000, shards_quick=4, shards_thorough=16)],
+    ),
     "C19": dict(
         rule="case = one test (names with '/', '%', unicode) making 1-12 calls (MatchStandaloneSnapshot with arbitrary bytes incl. CR/CRLF/`---`/NUL/invalid UTF-8 and structured values, "
              "MatchStandaloneJSON, interleaved MatchSnapshot) under configs with/without Filename/Ext (also containing '%'), executed 1-3 times per process. Four processes: record (exact file set and bytes), "
